@@ -17,9 +17,10 @@ import Apko.Proofs.Lemmas.LayersStmt
 import Apko.Proofs.Lemmas.LayersFinish
 import Apko.Proofs.Lemmas.LayersNested
 import Apko.Proofs.Lemmas.LayersSplit
+import Apko.Proofs.Lemmas.LayersGlue
 
 namespace Apko.C10
-open Apko Apko.Layers
+open Apko Apko.Layers Apko.C10.Split
 
 /-! ## ties to the source text of pkg/build/layers.go, tarball.go, tarfs/fs.go (regenerated on every run)
 
@@ -108,6 +109,48 @@ theorem tie_stmts_Package : Generated.stmts_Package =
 
 /-! ## grouping -/
 
+/-- T groups_partition: every package is in exactly one group (the groups, concatenated, are a
+permutation of the input), for every choice of the four map iteration orders. -/
+theorem groups_partition : GroupsPartition := groupsPartition
+
+/-- T groups_closed: same origin ⇒ same group; `a` replaces `b` (version-checked exactly as
+`replacesGroup` does) ⇒ same group.  Packages sharing an origin or related by replaces are
+never split across layers. -/
+theorem groups_closed : GroupsClosed := groupsClosed
+
+/-- T group_perm_invariant: groups, their order, the order inside each group, and the error /
+panic outcome are independent of the four map iteration orders (also used by C01). -/
+theorem group_perm_invariant : GroupPermInvariant := groupPermInvariant
+
+/-- the outcome is an error exactly when a replaces entry naming a present package cannot be
+evaluated; for a non-negative budget the function never panics -/
+theorem group_outcome_characterised (pkgs : List LPkg) (budget : Int) (o1 o2 o3 o4 : Order)
+    (hu : UniqueNames pkgs) (ho1 : IsPerm o1) (ho2 : IsPerm o2) (ho3 : IsPerm o3) :
+    (groupByOriginAndSize pkgs budget o1 o2 o3 o4 = .err ↔ replacesError pkgs = true) ∧
+    (0 ≤ budget → groupByOriginAndSize pkgs budget o1 o2 o3 o4 ≠ .panic) :=
+  group_outcome hu ho1 ho2 ho3
+
+/-- two packages end up in the same group of the merge loop iff they are connected by
+origin / version-checked replaces edges: the groups before the budget cut are exactly the
+connected components -/
+theorem groups_are_components {pkgs : List LPkg} {o1 o2 o3 : Order} {st4 : GState}
+    (hu : UniqueNames pkgs) (ho1 : IsPerm o1) (ho2 : IsPerm o2) (ho3 : IsPerm o3)
+    (hs : phase4 o3 (phase3 o2 (phase2 o1 (phase1 pkgs))) (phase2 o1 (phase1 pkgs)) = .ok st4)
+    {a b : LPkg} (ha : a ∈ pkgs) (hb : b ∈ pkgs) : Share st4 a b ↔ Conn pkgs a b :=
+  share_iff_conn_st4 hu ho1 ho2 ho3 hs ha hb
+
+/-- the hypotheses are satisfiable: reversing is a permutation, and a package set with a shared
+origin and a satisfied versioned replaces edge has unique names and groups without error -/
+example : IsPerm List.reverse := fun l => List.reverse_perm l
+def exPkgs : List LPkg :=
+  let t (s : String) : Text := s.toList
+  [⟨t "glibc", t "glibc", t "2.38-r14", [], 100⟩, ⟨t "libcrypt1", t "glibc", t "2.38-r14", [], 5⟩,
+   ⟨t "libxcrypt", t "libxcrypt", t "4.4", [t "libcrypt1<2.38-r15"], 7⟩, ⟨t "crane", t "crane", t "1", [], 7⟩]
+example : UniqueNames exPkgs ∧ replacesError exPkgs = false ∧
+    replacesEdge exPkgs (exPkgs.getD 2 default) (exPkgs.getD 1 default) = true := by
+  refine ⟨by unfold UniqueNames; decide, by decide, by decide⟩
+
+
 /-- T group_count: at most `max budget 1` groups, for every input and all four map orders
 (hence at most `max budget 1 + 1` layers). -/
 theorem group_count : GroupCount := groupCount
@@ -173,7 +216,7 @@ theorem alignStacks_closed (ws : List Path) (stack : List WEntry) :
 theorem file_once : FileOnce := fileOnce
 
 /-- T layer_wellformed -/
-theorem layer_wellformed : LayerWellFormed := C10.layerWellFormed
+theorem layer_wellformed : LayerWellFormed := Split.layerWellFormed
 
 /-- T top_has_true_dirs -/
 theorem top_has_true_dirs : TopHasTrueDirs := topHasTrueDirs
@@ -245,10 +288,124 @@ theorem splitLayers_sound (groups : List (List Text)) (walk : List WEntry) (ls :
       cases ho : f.owner with
       | none => simp
       | some p => have := hob f hf p ho; simp only at this ⊢; omega
-    refine ⟨?_, layerWellFormed _ _ walk hw hto, fileOnce _ _ walk hw hto,
+    refine ⟨?_, Split.layerWellFormed _ _ walk hw hto, fileOnce _ _ walk hw hto,
       topHasTrueDirs _ _ walk hw hto hdu hob, flattenEqSingle _ _ walk hw hto hdu⟩
     simp [splitOuts, (inv_final _ groups.length walk hw).len]
   · cases h
+
+theorem layerOfGroups_fold_spec (all l : List (List Text × Nat)) (name : Text) (acc : Option Nat)
+    (hl : ∀ x ∈ l, x ∈ all) (ha : ∀ i, acc = some i → ∃ g, (g, i) ∈ all ∧ name ∈ g) :
+    ∀ i, l.foldl (fun acc (x : List Text × Nat) => if name ∈ x.1 then some x.2 else acc) acc
+      = some i → ∃ g, (g, i) ∈ all ∧ name ∈ g := by
+  induction l generalizing acc with
+  | nil => simpa using ha
+  | cons x l ih =>
+    simp only [List.foldl_cons]
+    apply ih
+    · intro y hy; exact hl y (List.mem_cons_of_mem _ hy)
+    · intro i hi
+      split at hi
+      · next hm => cases hi; exact ⟨x.1, hl x List.mem_cons_self, hm⟩
+      · exact ha i hi
+
+/-- the writer of a package is the layer of a group that contains it -/
+theorem layerOfGroups_spec (groups : List (List Text)) (name : Text) (i : Nat)
+    (h : layerOfGroups groups name = some i) : ∃ g, groups[i]? = some g ∧ name ∈ g := by
+  unfold layerOfGroups at h
+  obtain ⟨g, hg, hn⟩ := layerOfGroups_fold_spec groups.zipIdx groups.zipIdx name none
+    (fun _ h => h) (by simp) i h
+  refine ⟨g, ?_, hn⟩
+  have := List.mem_zipIdx_iff_getElem?.mp hg
+  simpa using this
+
+theorem layerOfGroups_fold_some (l : List (List Text × Nat)) (name : Text) (acc : Option Nat)
+    (h : acc.isSome = true ∨ ∃ x ∈ l, name ∈ x.1) :
+    (l.foldl (fun acc (x : List Text × Nat) => if name ∈ x.1 then some x.2 else acc) acc).isSome
+      = true := by
+  induction l generalizing acc with
+  | nil => rcases h with h | ⟨x, hx, _⟩; exact h; simp at hx
+  | cons x l ih =>
+    simp only [List.foldl_cons]
+    apply ih
+    by_cases hm : name ∈ x.1
+    · left; simp [hm]
+    · rcases h with h | ⟨y, hy, hyn⟩
+      · left; simp [hm, h]
+      · rcases List.mem_cons.mp hy with rfl | hy
+        · exact absurd hyn hm
+        · right; exact ⟨y, hy, hyn⟩
+
+/-- every package that is in some group has a writer (no `packageToWriter[..] missing` panic) -/
+theorem layerOfGroups_isSome (groups : List (List Text)) (name : Text)
+    (h : ∃ g ∈ groups, name ∈ g) : (layerOfGroups groups name).isSome = true := by
+  unfold layerOfGroups
+  apply layerOfGroups_fold_some
+  right
+  obtain ⟨g, hg, hn⟩ := h
+  obtain ⟨i, hi, rfl⟩ := List.getElem_of_mem hg
+  exact ⟨(groups[i], i), List.mem_zipIdx_iff_getElem?.mpr (by simp [hi]), hn⟩
+
+/-- The tail of `buildLayers` (grouping followed by splitting) on an installed package set with
+unique names, any budget ≥ 0 and any map orders, over a preorder walk whose owners are installed
+packages: it does not panic, emits at most `max budget 1 + 1` layers, and the layers have all
+the properties of `splitLayers_sound`; the layer of an owned file is that of a group containing
+its owner. -/
+theorem buildLayers_tail_sound (pkgs : List LPkg) (budget : Int) (o1 o2 o3 o4 : Order)
+    (gs : List Grp) (walk : List WEntry)
+    (hu : UniqueNames pkgs) (ho1 : IsPerm o1) (ho2 : IsPerm o2) (ho3 : IsPerm o3) (ho4 : IsPerm o4)
+    (hg : groupByOriginAndSize pkgs budget o1 o2 o3 o4 = .ok gs)
+    (hnd : (walk.map (·.path)).Nodup) (hne : ∀ f ∈ walk, f.path ≠ [])
+    (hwn : WellNested walk = true) (hdu : DirsUnowned walk)
+    (hown : ∀ f ∈ walk, ∀ p, f.owner = some p → ∃ q ∈ pkgs, q.name = p) :
+    ∃ ls, splitLayers (gs.map fun g => g.pkgs.map (·.name)) walk = some ls ∧
+      ls.length ≤ max budget.toNat 1 + 1 ∧
+      (∀ L ∈ ls, Layers.layerWellFormed L = true) ∧
+      (∀ f ∈ walk, ∀ p, f.owner = some p →
+        ∃ i g, i < gs.length ∧ gs[i]? = some g ∧ p ∈ g.pkgs.map (·.name) ∧
+          (ls.getD i []).filter (fun e => e.path = f.path) = [f.toEntry]) ∧
+      ls.getD gs.length [] = (walk.filter (fun f => f.owner.isNone)).map (·.toEntry) ∧
+      (∀ p, lastFor ls.flatten p = lastFor (singleLayer walk) p) := by
+  have hpart := groupsPartition pkgs budget o1 o2 o3 o4 gs hu ho1 ho2 ho3 ho4 hg
+  have hsome : ∀ f ∈ walk, ∀ p, f.owner = some p →
+      (layerOfGroups (gs.map fun g => g.pkgs.map (·.name)) p).isSome = true := by
+    intro f hf p hp
+    obtain ⟨q, hq, rfl⟩ := hown f hf p hp
+    have : q ∈ gs.flatMap (·.pkgs) := hpart.mem_iff.mpr hq
+    obtain ⟨g, hg', hqg⟩ := List.mem_flatMap.mp this
+    exact layerOfGroups_isSome _ _ ⟨_, List.mem_map_of_mem hg', List.mem_map_of_mem hqg⟩
+  have hsl : ∃ ls, splitLayers (gs.map fun g => g.pkgs.map (·.name)) walk = some ls := by
+    unfold splitLayers
+    split
+    · exact ⟨_, rfl⟩
+    · next hn =>
+      exfalso
+      apply hn
+      rw [List.all_eq_true]
+      intro f hf
+      cases ho : f.owner with
+      | none => rfl
+      | some p => simpa using hsome f hf p ho
+  obtain ⟨ls, hls⟩ := hsl
+  obtain ⟨hlen, hwf, hfo, htop, hflat⟩ := splitLayers_sound _ walk ls hnd hne hwn hdu hls
+  rw [List.length_map] at hlen htop hfo
+  refine ⟨ls, hls, ?_, hwf, ?_, htop, hflat⟩
+  · have := groupCount pkgs budget o1 o2 o3 o4 gs hg
+    omega
+  · intro f hf p hp
+    have hd : f.isDir = false := by
+      cases hfd : f.isDir with
+      | false => rfl
+      | true => have := hdu f hf hfd; rw [this] at hp; cases hp
+    obtain ⟨i, hi⟩ := Option.isSome_iff_exists.mp (hsome f hf p hp)
+    have hlt := layerOfGroups_lt _ p i hi
+    rw [List.length_map] at hlt
+    obtain ⟨g, hgi, hpg⟩ := layerOfGroups_spec _ p i hi
+    rw [List.getElem?_map] at hgi
+    obtain ⟨g', hg', rfl⟩ := Option.map_eq_some_iff.mp hgi
+    refine ⟨i, g', hlt, hg', hpg, ?_⟩
+    have := hfo f hf hd i (by omega)
+    rw [this]
+    simp [target, hp, hi]
 
 /-- the hypotheses are satisfiable by a non-trivial walk: shared and nested directories, files of
 two packages and unowned files, three layers -/
